@@ -215,6 +215,13 @@ def rule_b(ctx, cr):
               "prints BREAK again and the program cannot be continued")
     c = cr.need_fn("mach::runtime::Runtime::cont")
     ctx.touch(c)
+    # the trace cursor (last line whose [n] label was printed) belongs to the interrupted run too:
+    # every direct line resets it, so CONT has to put it back
+    ctx.check(bool(list(c.field_stores("tr"))), "C13.b", "cont/restores-trace-cursor", c.span,
+              "CONT restores the trace cursor together with pc",
+              "CONT restores pc but not Runtime.tr, which enter_direct cleared for the CONT line "
+              "itself: with TRON the label of the line being continued is printed a second time "
+              "(`10 TRON` / `20 A=1:A=2:PRINT A`, interrupt inside line 20, CONT prints [20] again)")
     readers = set()
     for p, f in cr.fns.items():
         for b, i, st in f.assigns():
